@@ -466,17 +466,23 @@ Qed.
 Definition GGood (r : gst -> nat -> gst * option gerr) : Prop :=
   forall s k s' o, r s k = (s', o) ->
     gpend s' = gpend s /\ gstack s' = gstack s /\ (forall x, gmem x (gdone s) = true -> gmem x (gdone s') = true) /\
-    (o = None -> gmem k (gdone s') = true).
+    (o = None -> gmem k (gdone s') = true) /\
+    (forall x, gmem x (gpend s) = true -> gmem x (gdone s') = gmem x (gdone s)).
 
 Lemma gfold_good r : GGood r -> forall ks s s' o, gfold r s ks = (s', o) ->
-  gpend s' = gpend s /\ gstack s' = gstack s /\ (forall x, gmem x (gdone s) = true -> gmem x (gdone s') = true).
+  gpend s' = gpend s /\ gstack s' = gstack s /\ (forall x, gmem x (gdone s) = true -> gmem x (gdone s') = true) /\
+  (forall x, gmem x (gpend s) = true -> gmem x (gdone s') = gmem x (gdone s)).
 Proof.
   intros G. induction ks as [|k ks IH]; intros s s' o H; cbn in H.
   - inversion H; subst. auto.
-  - destruct (r s k) as [s1 o1] eqn:E. destruct (G _ _ _ _ E) as (A1 & A2 & A3 & _). destruct o1.
+  - destruct (r s k) as [s1 o1] eqn:E. destruct (G _ _ _ _ E) as (A1 & A2 & A3 & _ & A5). destruct o1.
     + inversion H; subst. auto.
-    + destruct (IH _ _ _ H) as (B1 & B2 & B3). repeat split; try congruence. auto.
+    + destruct (IH _ _ _ H) as (B1 & B2 & B3 & B5). split; [congruence|]. split; [congruence|]. split; [auto|].
+      intros x Hx. rewrite B5, A5; auto. rewrite A1. exact Hx.
 Qed.
+
+Lemma gmem_cons x k l : gmem x (k :: l) = Nat.eqb x k || gmem x l.
+Proof. reflexivity. Qed.
 
 Lemma grun_good : forall fuel, GGood (grun true calls gf fuel).
 Proof.
@@ -486,18 +492,24 @@ Proof.
     destruct (gmem k (gpend s)) eqn:EP. { inversion H; subst. repeat split; auto; discriminate. }
     assert (W : forall ks s2 o2, gfold (grun true calls gf n) (start k (push k s)) ks = (s2, o2) ->
                 gpend (pop (unp k s2)) = gpend s /\ gstack (pop (unp k s2)) = gstack s /\
-                (forall x, gmem x (gdone s) = true -> gmem x (gdone s2) = true)).
-    { intros ks s2 o2 E. destruct (gfold_good _ IH _ _ _ _ E) as (A1 & A2 & A3). cbn [start push gpend gstack gdone] in *.
-      cbn [pop unp gpend gstack]. rewrite A1, A2. cbn [tl]. split; [apply grem_head; exact EP|]. split; [reflexivity | exact A3]. }
+                (forall x, gmem x (gdone s) = true -> gmem x (gdone s2) = true) /\
+                (forall x, gmem x (gpend s) = true -> gmem x (gdone s2) = gmem x (gdone s))).
+    { intros ks s2 o2 E. destruct (gfold_good _ IH _ _ _ _ E) as (A1 & A2 & A3 & A5). cbn [start push gpend gstack gdone] in *.
+      cbn [pop unp gpend gstack]. rewrite A1, A2. cbn [tl]. split; [apply grem_head; exact EP|]. split; [reflexivity|]. split; [exact A3|].
+      intros x Hx. apply A5. rewrite gmem_cons, Hx. apply orb_true_r. }
     destruct (gf k (gcount k (gruns s))) as [i|].
     + destruct (gfold (grun true calls gf n) (start k (push k s)) (firstn i (calls k))) as [s2 o2] eqn:E.
-      destruct (W _ _ _ E) as (W1 & W2 & W3). unfold unwind in H.
-      destruct o2; inversion H; subst; repeat split; auto; discriminate.
+      destruct (W _ _ _ E) as (W1 & W2 & W3 & W5). unfold unwind in H.
+      destruct o2; inversion H; subst; (split; [exact W1|]; split; [exact W2|]; split; [exact W3|]; split; [discriminate | exact W5]).
     + destruct (gfold (grun true calls gf n) (start k (push k s)) (calls k)) as [s2 o2] eqn:E.
-      destruct (W _ _ _ E) as (W1 & W2 & W3). unfold unwind in H.
+      destruct (W _ _ _ E) as (W1 & W2 & W3 & W5). unfold unwind in H.
       destruct o2; inversion H; subst; cbn [finish gpend gstack gdone].
-      * repeat split; auto; discriminate.
-      * repeat split; auto. { intros x Hx. unfold gmem. cbn [existsb]. apply orb_true_iff. right. apply (W3 x Hx). } { intros _. unfold gmem. cbn [existsb]. rewrite Nat.eqb_refl. reflexivity. }
+      * split; [exact W1|]. split; [exact W2|]. split; [exact W3|]. split; [discriminate | exact W5].
+      * split; [exact W1|]. split; [exact W2|]. split.
+        { intros x Hx. cbn [pop unp gdone]. rewrite gmem_cons, (W3 x Hx). apply orb_true_r. }
+        split. { intros _. rewrite gmem_cons, Nat.eqb_refl. reflexivity. }
+        intros x Hx. cbn [pop unp gdone]. rewrite gmem_cons, (W5 x Hx).
+        destruct (Nat.eqb x k) eqn:Exk; [|reflexivity]. apply Nat.eqb_eq in Exk. subst x. congruence.
 Qed.
 
 (* a call that is neither cached nor pending executes its body: the log grows by k *)
@@ -530,4 +542,249 @@ Proof.
     exists l. destruct o2; cbn; exact H.
 Qed.
 
+Lemma gen_rerun fuel n s k e :
+  gpend s = [] ->
+  snd (grun true calls gf (S fuel) s k) = Some e ->
+  let s' := fst (grun true calls gf (S fuel) s k) in
+  gpend s' = [] /\ gstack s' = gstack s /\ gmem k (gdone s') = false /\
+  exists l, gruns (fst (grun true calls gf (S n) s' k)) = l ++ k :: gruns s'.
+Proof.
+  intros HP HE s'. destruct (grun true calls gf (S fuel) s k) as [s1 o] eqn:E. cbn [fst snd] in *. subst o s'.
+  destruct (grun_good (S fuel) _ _ _ _ E) as (A1 & A2 & A3 & A4 & A5).
+  assert (ED : gmem k (gdone s) = false).
+  { destruct (gmem k (gdone s)) eqn:X; [|reflexivity]. cbn [grun] in E. rewrite X in E. discriminate. }
+  assert (ED1 : gmem k (gdone s1) = false).
+  { cbn [grun] in E. rewrite ED, HP in E. cbn [gmem existsb] in E.
+    assert (W : forall ks s2 o2, gfold (grun true calls gf fuel) (start k (push k s)) ks = (s2, o2) -> gmem k (gdone s2) = false).
+    { intros ks s2 o2 EF. destruct (gfold_good _ (grun_good fuel) _ _ _ _ EF) as (_ & _ & _ & B5).
+      rewrite B5; [exact ED|]. cbn [start push gpend]. rewrite gmem_cons, Nat.eqb_refl. reflexivity. }
+    destruct (gf k (gcount k (gruns s))) as [i|].
+    - destruct (gfold (grun true calls gf fuel) (start k (push k s)) (firstn i (calls k))) as [s2 o2] eqn:EF.
+      pose proof (W _ _ _ EF) as W1. unfold unwind in E. destruct o2; inversion E; subst; exact W1.
+    - destruct (gfold (grun true calls gf fuel) (start k (push k s)) (calls k)) as [s2 o2] eqn:EF.
+      pose proof (W _ _ _ EF) as W1. unfold unwind in E. destruct o2; inversion E; subst. exact W1. }
+  split; [congruence|]. split; [exact A2|]. split; [exact ED1|].
+  apply grun_runs_body; [exact ED1 | rewrite A1, HP; reflexivity].
+Qed.
 End GenProofs.
+
+(* ------------------------------------------------------------------ do_call and histories *)
+Definition Inv (s : pst) : Prop := forall x, In x (half s) -> Recorded s x.
+
+Lemma inv_init : Inv init.
+Proof. intros x []. Qed.
+
+Lemma do_call_goodC s c :
+  exists r, GoodC s (fst (fst (do_call repaired s c))) r /\
+            forall x, In x (snd (do_call repaired s c)) -> rec_of x (failed (fst (fst (do_call repaired s c)))) = None.
+Proof.
+  unfold do_call. destruct (c_export c).
+  - destruct (export repaired (assoc_kids (c_kids c)) (assoc_fail (c_fail c)) (call_fuel c) (c_passes c) (c_tops c) s)
+      as [[s' r] l] eqn:E. destruct (export_spec _ _ _ _ _ _ _ _ _ E) as (G & _ & N). cbn [fst snd]. eexists. split; [exact G | exact N].
+  - destruct (run_passes repaired (assoc_kids (c_kids c)) (assoc_fail (c_fail c)) (call_fuel c) (c_passes c) (c_tops c) s)
+      as [s' r] eqn:E. cbn [fst snd]. exists r. split; [apply (run_passes_goodC _ _ _ _ _ _ _ _ E) | intros x []].
+Qed.
+
+Lemma do_call_pend s c : pend (fst (fst (do_call repaired s c))) = pend s.
+Proof. destruct (do_call_goodC s c) as (r & G & _). apply G. Qed.
+
+Lemma run_hist_pend : forall cs s, pend (run_hist repaired s cs) = pend s.
+Proof. induction cs as [|c cs IH]; intros s; cbn; [reflexivity|]. rewrite IH. apply do_call_pend. Qed.
+
+Lemma do_call_inv s c : Inv s -> Inv (fst (fst (do_call repaired s c))).
+Proof.
+  intros I. destruct (do_call_goodC s c) as (r & G & _). destruct G as (A1 & A2 & A3 & A4 & A5 & A6 & A7).
+  intros x Hx. destruct (A6 x Hx) as [H|H]; [apply A5, I, H | exact H].
+Qed.
+
+Lemma run_hist_inv : forall cs s, Inv s -> Inv (run_hist repaired s cs).
+Proof. induction cs as [|c cs IH]; intros s I; cbn; [exact I|]. apply IH, do_call_inv, I. Qed.
+
+Lemma do_call_sticky s c m : Inv s -> In m (half s) ->
+  let r := do_call repaired s c in
+  let s' := fst (fst r) in
+  (forall q, memp (q, m) (done s') = memp (q, m) (done s)) /\ memn m (elab s') = memn m (elab s) /\
+  ~ In m (snd r) /\ In m (half s') /\ Inv s'.
+Proof.
+  intros I Hm r s'. destruct (do_call_goodC s c) as (r0 & G & N). destruct G as (A1 & A2 & A3 & A4 & A5 & A6 & A7).
+  destruct (A5 m (I m Hm)) as (C1 & C2 & C3). split; [exact C2|]. split; [exact C3|]. split.
+  - intros Hin. apply C1. apply N. exact Hin.
+  - split; [apply A7; exact Hm | apply do_call_inv; exact I].
+Qed.
+
+(* every call of a continuation, with the state it starts from *)
+Fixpoint calls_from (s : pst) (cs : list call) : list (pst * call) :=
+  match cs with
+  | [] => []
+  | c :: cs' => (s, c) :: calls_from (fst (fst (do_call repaired s c))) cs'
+  end.
+
+Lemma hist_sticky : forall cs s m, Inv s -> In m (half s) ->
+  (forall q, memp (q, m) (done (run_hist repaired s cs)) = memp (q, m) (done s)) /\
+  memn m (elab (run_hist repaired s cs)) = memn m (elab s) /\
+  (forall sc, In sc (calls_from s cs) -> ~ In m (snd (do_call repaired (fst sc) (snd sc)))).
+Proof.
+  induction cs as [|c cs IH]; intros s m I Hm; cbn [run_hist calls_from].
+  - repeat split. intros sc [].
+  - destruct (do_call_sticky s c m I Hm) as (D1 & D2 & D3 & D4 & D5).
+    destruct (IH _ m D5 D4) as (E1 & E2 & E3). split; [intros q; rewrite E1; apply D1|]. split; [congruence|].
+    intros sc [<-|Hsc]; [exact D3 | apply E3; exact Hsc].
+Qed.
+
+(* repeating a failed call *)
+Definition more_faults (c c' : call) : Prop :=
+  c_kids c' = c_kids c /\ c_passes c' = c_passes c /\ c_tops c' = c_tops c /\ c_export c' = c_export c /\
+  forall q m x, assoc_fail (c_fail c) q m = Some x -> assoc_fail (c_fail c') q m = Some x.
+
+Lemma do_call_retry s c c' e : more_faults c c' ->
+  snd (fst (do_call repaired s c)) = Some e ->
+  do_call repaired (fst (fst (do_call repaired s c))) c' = (fst (fst (do_call repaired s c)), Some e, []).
+Proof.
+  intros (K & P & T & X & F). unfold do_call, call_fuel. rewrite K, P, T, X. destruct (c_export c).
+  - unfold export.
+    destruct (run_passes repaired (assoc_kids (c_kids c)) (assoc_fail (c_fail c)) (S (length (c_kids c))) (c_passes c) (c_tops c) s)
+      as [s1 r1] eqn:E. destruct r1 as [e1|].
+    + cbn [fst snd]. intros H. inversion H; subst.
+      rewrite (retry_passes _ _ _ F _ _ _ _ _ _ E). reflexivity.
+    + destruct (fold_x (xvisit repaired (assoc_kids (c_kids c)) s1 (S (length (c_kids c)))) [] (c_tops c)) as [a r2] eqn:EX.
+      destruct r2 as [e2|]; cbn [fst snd]; intros H; [|discriminate]. inversion H; subst.
+      rewrite (run_passes_idem _ _ (assoc_fail (c_fail c')) _ _ _ _ _ E), EX. reflexivity.
+  - destruct (run_passes repaired (assoc_kids (c_kids c)) (assoc_fail (c_fail c)) (S (length (c_kids c))) (c_passes c) (c_tops c) s)
+      as [s1 r1] eqn:E. cbn [fst snd]. intros ->. rewrite (retry_passes _ _ _ F _ _ _ _ _ _ E). reflexivity.
+Qed.
+
+(* a module carrying a record reports it to whoever visits or exports it first *)
+Lemma visit_recorded kids f p k s m c : rec_of m (failed s) = Some c ->
+  visit repaired kids f p (S k) s m = (s, Some (CE c)).
+Proof. intros H. rewrite visit_S, H. reflexivity. Qed.
+
+(* ------------------------------------------------------------------ frame *)
+Definition agree (R : nat -> bool) (s1 s2 : pst) : Prop :=
+  forall x, R x = true ->
+    (forall q, memp (q, x) (done s1) = memp (q, x) (done s2)) /\
+    (forall q, memp (q, x) (pend s1) = memp (q, x) (pend s2)) /\
+    rec_of x (failed s1) = rec_of x (failed s2) /\ memn x (elab s1) = memn x (elab s2).
+Definition closed (kids : nat -> option (list nat)) (R : nat -> bool) : Prop :=
+  forall x cs c, R x = true -> kids x = Some cs -> In c cs -> R c = true.
+
+Lemma memp_remp z y l : memp z (remp y l) = negb (eqpm y z) && memp z l.
+Proof.
+  unfold memp, remp. induction l as [|w l IH]; cbn [filter existsb]; [rewrite andb_false_r; reflexivity|].
+  destruct (eqpm y w) eqn:E1; cbn [negb existsb].
+  - rewrite IH. apply eqpm_true in E1. subst w.
+    destruct (eqpm z y) eqn:E2; [apply eqpm_true in E2; subst z; rewrite eqpm_refl; reflexivity | reflexivity].
+  - rewrite IH. destruct (eqpm z w) eqn:E2; [|reflexivity]. apply eqpm_true in E2. subst w. rewrite E1. reflexivity.
+Qed.
+
+Section Frame.
+Variable kids : nat -> option (list nat).
+Variable f : nat -> nat -> option Z.
+Variable p : pass.
+Variable R : nat -> bool.
+Hypothesis HC : closed kids R.
+
+Lemma agree_add_pend y s1 s2 : agree R s1 s2 -> agree R (add_pend y s1) (add_pend y s2).
+Proof.
+  intros A x Hx. destruct (A x Hx) as (A1 & A2 & A3 & A4). cbn [add_pend done pend failed elab].
+  split; [exact A1|]. split; [intros q; rewrite !memp_cons, A2; reflexivity|]. split; assumption.
+Qed.
+Lemma agree_unpend y s1 s2 : agree R s1 s2 -> agree R (unpend y s1) (unpend y s2).
+Proof.
+  intros A x Hx. destruct (A x Hx) as (A1 & A2 & A3 & A4). cbn [unpend done pend failed elab].
+  split; [exact A1|]. split; [intros q; rewrite !memp_remp, A2; reflexivity|]. split; assumption.
+Qed.
+Lemma agree_interrupted m c s1 s2 : agree R s1 s2 -> agree R (interrupted repaired m c s1) (interrupted repaired m c s2).
+Proof.
+  intros A x Hx. destruct (A x Hx) as (A1 & A2 & A3 & A4). cbn [interrupted repaired sticky done pend failed elab].
+  split; [exact A1|]. split; [exact A2|]. split; [cbn [rec_of]; rewrite A3; reflexivity | exact A4].
+Qed.
+Lemma agree_set_done y b s1 s2 : agree R s1 s2 -> agree R (set_done y b s1) (set_done y b s2).
+Proof.
+  intros A x Hx. destruct (A x Hx) as (A1 & A2 & A3 & A4). cbn [set_done done pend failed elab].
+  split; [intros q; rewrite !memp_cons, A1; reflexivity|]. split; [exact A2|]. split; [exact A3|].
+  destruct b; [|exact A4]. unfold memn in *. cbn [existsb]. rewrite A4. reflexivity.
+Qed.
+
+Lemma frame_fold v :
+  (forall s1 s2 m, agree R s1 s2 -> R m = true -> snd (v s1 m) = snd (v s2 m) /\ agree R (fst (v s1 m)) (fst (v s2 m))) ->
+  forall ms s1 s2, agree R s1 s2 -> (forall m, In m ms -> R m = true) ->
+    snd (fold_visit v s1 ms) = snd (fold_visit v s2 ms) /\ agree R (fst (fold_visit v s1 ms)) (fst (fold_visit v s2 ms)).
+Proof.
+  intros Hv. induction ms as [|m ms IH]; intros s1 s2 A HR; cbn [fold_visit]; [split; [reflexivity | exact A]|].
+  destruct (Hv s1 s2 m A (HR m (or_introl eq_refl))) as [E1 E2].
+  destruct (v s1 m) as [a1 r1], (v s2 m) as [a2 r2]. cbn [fst snd] in *. subst r2. destruct r1 as [e|].
+  - split; [reflexivity | exact E2].
+  - apply IH; [exact E2 | intros m' Hm; apply HR; right; exact Hm].
+Qed.
+
+Lemma frame_visit : forall k s1 s2 m, agree R s1 s2 -> R m = true ->
+  snd (visit repaired kids f p k s1 m) = snd (visit repaired kids f p k s2 m) /\
+  agree R (fst (visit repaired kids f p k s1 m)) (fst (visit repaired kids f p k s2 m)).
+Proof.
+  induction k as [|k IH]; intros s1 s2 m A Hm; [split; [reflexivity | exact A]|].
+  rewrite !visit_S. destruct (A m Hm) as (A1 & A2 & A3 & A4). rewrite <- A3, <- (A1 (pid p)), <- (A2 (pid p)).
+  destruct (rec_of m (failed s1)); [split; [reflexivity | exact A]|].
+  destruct (memp (pid p, m) (done s1)); [split; [reflexivity | exact A]|].
+  destruct (memp (pid p, m) (pend s1)); [split; [reflexivity | exact A]|].
+  destruct (kids m) as [cs|] eqn:EK; [|split; [reflexivity | exact A]].
+  destruct (frame_fold _ IH cs _ _ (agree_add_pend (pid p, m) _ _ A) (fun c Hc => HC m cs c Hm EK Hc)) as [E1 E2].
+  destruct (fold_visit (visit repaired kids f p k) (add_pend (pid p, m) s1) cs) as [a1 r1].
+  destruct (fold_visit (visit repaired kids f p k) (add_pend (pid p, m) s2) cs) as [a2 r2].
+  cbn [fst snd] in *. subst r2. destruct r1 as [e|]; cbn [fst snd].
+  - split; [reflexivity | apply agree_unpend; exact E2].
+  - destruct (f (pid p) m) as [c|]; cbn [fst snd].
+    + split; [reflexivity|]. apply agree_unpend. destruct (prw p); [apply agree_interrupted; exact E2 | exact E2].
+    + split; [reflexivity|]. apply agree_set_done, agree_unpend. exact E2.
+Qed.
+End Frame.
+
+Lemma frame_passes kids f R fuel tops : closed kids R -> (forall t, In t tops -> R t = true) ->
+  forall ps s1 s2, agree R s1 s2 ->
+  snd (run_passes repaired kids f fuel ps tops s1) = snd (run_passes repaired kids f fuel ps tops s2) /\
+  agree R (fst (run_passes repaired kids f fuel ps tops s1)) (fst (run_passes repaired kids f fuel ps tops s2)).
+Proof.
+  intros HC HT. induction ps as [|p ps IH]; intros s1 s2 A; cbn [run_passes]; [split; [reflexivity | exact A]|].
+  destruct (frame_fold R _ (frame_visit kids f p R HC fuel) tops s1 s2 A HT) as [E1 E2].
+  destruct (fold_visit (visit repaired kids f p fuel) s1 tops) as [a1 r1].
+  destruct (fold_visit (visit repaired kids f p fuel) s2 tops) as [a2 r2]. cbn [fst snd] in *. subst r2.
+  destruct r1 as [e|]; [split; [reflexivity | exact E2] | apply IH; exact E2].
+Qed.
+
+Lemma frame_xvisit kids R s1 s2 : closed kids R -> agree R s1 s2 ->
+  forall fuel acc m, R m = true -> xvisit repaired kids s1 fuel acc m = xvisit repaired kids s2 fuel acc m.
+Proof.
+  intros HC A. induction fuel as [|k IH]; intros acc m Hm; [reflexivity|]. cbn [xvisit].
+  destruct (A m Hm) as (_ & _ & A3 & _). cbn [repaired sticky]. rewrite <- A3.
+  destruct (memn m acc); [reflexivity|]. destruct (rec_of m (failed s1)); [reflexivity|].
+  destruct (kids m) as [cs|] eqn:EK; [|reflexivity].
+  assert (HF : forall cs acc, (forall c, In c cs -> R c = true) ->
+               fold_x (xvisit repaired kids s1 k) acc cs = fold_x (xvisit repaired kids s2 k) acc cs).
+  { induction cs0 as [|c cs0 IHc]; intros acc0 Hcs; [reflexivity|]. cbn [fold_x].
+    rewrite (IH acc0 c (Hcs c (or_introl eq_refl))). destruct (xvisit repaired kids s2 k acc0 c) as [a1 [e|]]; [reflexivity|].
+    apply IHc. intros c' Hc'. apply Hcs. right. exact Hc'. }
+  rewrite (HF cs acc (fun c Hc => HC m cs c Hm EK Hc)). reflexivity.
+Qed.
+
+Lemma frame_call R s1 s2 c :
+  closed (assoc_kids (c_kids c)) R -> agree R s1 s2 -> (forall t, In t (c_tops c) -> R t = true) ->
+  snd (do_call repaired s1 c) = snd (do_call repaired s2 c) /\
+  snd (fst (do_call repaired s1 c)) = snd (fst (do_call repaired s2 c)) /\
+  agree R (fst (fst (do_call repaired s1 c))) (fst (fst (do_call repaired s2 c))).
+Proof.
+  intros HC A HT. unfold do_call.
+  destruct (frame_passes _ (assoc_fail (c_fail c)) R (call_fuel c) (c_tops c) HC HT (c_passes c) s1 s2 A) as [E1 E2].
+  destruct (c_export c); unfold export.
+  - destruct (run_passes repaired (assoc_kids (c_kids c)) (assoc_fail (c_fail c)) (call_fuel c) (c_passes c) (c_tops c) s1) as [a1 r1].
+    destruct (run_passes repaired (assoc_kids (c_kids c)) (assoc_fail (c_fail c)) (call_fuel c) (c_passes c) (c_tops c) s2) as [a2 r2].
+    cbn [fst snd] in *. subst r2. destruct r1 as [e|]; cbn [fst snd]; [split; [reflexivity|]; split; [reflexivity | exact E2]|].
+    assert (HX : forall ts acc, (forall t, In t ts -> R t = true) ->
+                 fold_x (xvisit repaired (assoc_kids (c_kids c)) a1 (call_fuel c)) acc ts =
+                 fold_x (xvisit repaired (assoc_kids (c_kids c)) a2 (call_fuel c)) acc ts).
+    { induction ts as [|t ts IHt]; intros acc Hts; [reflexivity|]. cbn [fold_x].
+      rewrite (frame_xvisit _ R a1 a2 HC E2 (call_fuel c) acc t (Hts t (or_introl eq_refl))).
+      destruct (xvisit repaired (assoc_kids (c_kids c)) a2 (call_fuel c) acc t) as [xx [ee|]]; [reflexivity|].
+      apply IHt. intros t' Ht'. apply Hts. right. exact Ht'. }
+    rewrite (HX (c_tops c) [] HT).
+    destruct (fold_x (xvisit repaired (assoc_kids (c_kids c)) a2 (call_fuel c)) [] (c_tops c)) as [xx [ee|]]; cbn [fst snd]; (split; [reflexivity|]; split; [reflexivity | exact E2]).
+  - cbn [fst snd]. split; [reflexivity|]. split; [exact E1 | exact E2].
+Qed.
